@@ -1046,6 +1046,51 @@ deriving DecidableEq, Repr
 '''
 
 
+def instance_method_fact(repo):
+    """DecoratedFunction.is_instance_method: does it answer False for a bound method object before it looks at the name of the first
+    parameter?  Recognised texts (anything else -> Skip):
+        [if inspect.ismethod(self._func) | self.is_class_method: return False]
+        return self._full_arg_spec.args != [] and self._full_arg_spec.args[0] == 'self'
+      or
+        return not inspect.ismethod(self._func) and <the same test>
+    (`is_class_method` must then be `inspect.ismethod(self._func)`, `_full_arg_spec` `inspect.getfullargspec(func)`)"""
+    tree = ast.parse(src(repo, 'pedantic/models/decorated_function.py'))
+    cls = [c for c in tree.body if isinstance(c, ast.ClassDef) and c.name == 'DecoratedFunction']
+    if not cls:
+        raise Skip('DecoratedFunction not found')
+    ms = {m.name: m for m in cls[0].body if isinstance(m, ast.FunctionDef)}
+    if 'is_instance_method' not in ms or '__init__' not in ms:
+        raise Skip('DecoratedFunction.is_instance_method not found')
+    if 'self._full_arg_spec=inspect.getfullargspec(func)' not in {_norm(x) for x in ms['__init__'].body} \
+            or 'self._func=func' not in {_norm(x) for x in ms['__init__'].body}:
+        raise Skip('DecoratedFunction.__init__: _full_arg_spec / _func are not what they used to be')
+    base = ("self._full_arg_spec.args!=[]andself._full_arg_spec.args[0]=='self'", "bool(self._full_arg_spec.args)andself._full_arg_spec.args[0]=='self'")
+
+    def is_bound_test(e):
+        t = _norm(e)
+        if t in ('inspect.ismethod(self._func)', 'ismethod(self._func)'):
+            return True
+        if t == 'self.is_class_method':
+            icm = ms.get('is_class_method')
+            body = [b for b in icm.body if not (isinstance(b, ast.Expr) and isinstance(b.value, ast.Constant))] if icm else []
+            return len(body) == 1 and _norm(body[0]) in ('returninspect.ismethod(self._func)', 'returnismethod(self._func)')
+        return False
+    body = [b for b in ms['is_instance_method'].body if not (isinstance(b, ast.Expr) and isinstance(b.value, ast.Constant))]
+    if len(body) == 1 and isinstance(body[0], ast.Return):
+        v = body[0].value
+        if _norm(v) in base:
+            return False
+        if isinstance(v, ast.BoolOp) and isinstance(v.op, ast.And) and isinstance(v.values[0], ast.UnaryOp) and isinstance(v.values[0].op, ast.Not) \
+                and is_bound_test(v.values[0].operand):
+            rest = v.values[1] if len(v.values) == 2 else ast.BoolOp(op=ast.And(), values=v.values[1:])
+            if _norm(rest) in base or _norm(rest) in tuple('(' + b + ')' for b in base):
+                return True
+    if len(body) == 2 and isinstance(body[0], ast.If) and not body[0].orelse and is_bound_test(body[0].test) \
+            and len(body[0].body) == 1 and _norm(body[0].body[0]) == 'returnFalse' and isinstance(body[1], ast.Return) and _norm(body[1].value) in base:
+        return True
+    raise Skip('DecoratedFunction.is_instance_method is outside the recognised texts')
+
+
 def class_decorators(repo):
     """trace_class -> trace …: `return for_all_methods(decorator=X)(cls=cls)`; plus the facts about the member loop"""
     tree = ast.parse(src(repo, 'pedantic/decorators/class_decorators.py'))
@@ -1106,6 +1151,7 @@ def gen_wrappers(repo):
     if missing:
         raise Skip(f'decorators not found: {missing}')
     pairs, uses_getattr, plain, handles_property, member_types = class_decorators(repo)
+    excludes_bound = instance_method_fact(repo)
     out = HEADER.format(rel='pedantic/decorators/**/fn_deco_*.py, class_decorators.py, helper_methods.py, models/decorated_function.py') + PRELUDE
     out += '\n'.join(defs)
     out += '\n/-- every decorator level found, in file order -/\ndef decos : List Deco := [' + ', '.join(idents) + ']\n'
@@ -1121,6 +1167,11 @@ def membersStoredAsPlainFunction : Bool := {lean_bool(plain)}
 def memberTypes : List String := [{", ".join(lean_str(t) for t in member_types)}]
 /-- property objects are rebuilt from decorated fget/fset/fdel -/
 def propertiesHandled : Bool := {lean_bool(handles_property)}
+
+/-- `DecoratedFunction.is_instance_method` (what `FunctionCall` uses to take `args[0]` as the instance and to strip it from the
+    arguments it complains about) answers False for a BOUND method object (`inspect.ismethod(func)`: `require_kwargs(obj.method)`)
+    before it looks whether the first parameter `getfullargspec` lists is spelled `self`; false: it only looks at that name -/
+def instanceMethodExcludesBound : Bool := {lean_bool(excludes_bound)}
 
 end PedVerif.Gen.Wrappers
 '''
